@@ -180,7 +180,8 @@ TrAbortRs == /\ IsEvent("abortrs")
 TrAbort == /\ IsEvent("abort")
            /\ act' = 0 /\ rsact' = FALSE /\ pend' = {} /\ got' = {} /\ donev' = 0 /\ forged' = 0
            /\ Check(Trace[l], "none", 0, fin)
-           /\ UNCHANGED <<n, fin, fins, stale>>
+           /\ stale' = TRUE      \* (a caller held after its chunk commit belongs to the restore that has just been aborted)
+           /\ UNCHANGED <<n, fin, fins>>
 
 (* the process died inside an operation and the database was reopened: an interrupted Finalize may or may not have taken effect *)
 TrCrash ==
